@@ -268,7 +268,30 @@ func nsTerm(m map[string]string) corev1.NodeSelectorTerm {
 	return t
 }
 
-func genSelector(r *kit.Rand) map[string]string {
+// genSelector derives a selector from what some ready pool of the world offers (mostly), or at random.
+func genSelector(r *kit.Rand, w *world) map[string]string {
+	if r.Chance(3, 4) {
+		var ready []sPool
+		for _, p := range w.pools {
+			if p.State == "ready" {
+				ready = append(ready, p)
+			}
+		}
+		p := kit.Pick(r, ready)
+		m := map[string]string{}
+		if v, ok := p.Labels[teamKey]; ok {
+			m[teamKey] = v
+		}
+		if len(p.Zones) > 0 && r.Bool() {
+			m[corev1.LabelTopologyZone] = kit.Pick(r, p.Zones)
+		}
+		if len(p.CapTypes) > 0 && r.Bool() {
+			m[v1.CapacityTypeLabelKey] = p.CapTypes[0]
+		}
+		if len(m) > 0 {
+			return m
+		}
+	}
 	switch r.Intn(4) {
 	case 0:
 		return map[string]string{teamKey: kit.Pick(r, []string{"x", "y", "x,y"})}
@@ -280,26 +303,64 @@ func genSelector(r *kit.Rand) map[string]string {
 	return map[string]string{v1.CapacityTypeLabelKey: capacityTypes[r.Intn(2)]}
 }
 
+// genPod builds a pod from a feasible skeleton (it fits some instance type of a target pool, selects the pool's label,
+// tolerates its taints) and then perturbs at most two dimensions (cpu at the allocatable boundary, a selector that
+// singles out another pool / zone / capacity type, a missing toleration).
 func genPod(r *kit.Rand, w *world, idx int, prefs bool) (*corev1.Pod, sPod) {
-	sp := sPod{Name: fmt.Sprintf("p%d", idx), CPU: kit.Pick(r, []string{"100m", "800m", "900m", "1", "1800m", "1900m", "3", "3800m", "3900m", "7", "16"})}
+	target := w.pools[r.Intn(len(w.pools))]
+	for k := 0; target.State != "ready" && k < len(w.pools); k++ {
+		target = w.pools[k]
+	}
+	maxCPU := int64(1)
+	for _, it := range w.cp.InstanceTypesForNodePool[target.Name] {
+		if c := it.Capacity.Cpu().Value(); c > maxCPU {
+			maxCPU = c
+		}
+	}
+	// fake instance types reserve 100m cpu: allocatable = capacity - 100m
+	cpuChoices := []string{"100m", "500m", "900m", "100m", "500m", "900m", fmt.Sprintf("%dm", maxCPU*1000-100), fmt.Sprintf("%dm", maxCPU*1000-200)}
+	sp := sPod{Name: fmt.Sprintf("p%d", idx), CPU: kit.Pick(r, cpuChoices)}
+	sel := map[string]string{}
+	if v, ok := target.Labels[teamKey]; ok && r.Chance(2, 3) {
+		sel[teamKey] = v
+	}
+	if len(target.Zones) > 0 && r.Chance(1, 3) {
+		sel[corev1.LabelTopologyZone] = kit.Pick(r, target.Zones)
+	}
+	var tolerate []string
+	for _, t := range target.Taints {
+		if strings.HasPrefix(t, "dedicated=") {
+			tolerate = append(tolerate, target.Name)
+		}
+	}
+	for n := kit.Pick(r, []int{0, 0, 0, 0, 1, 1, 1, 2}); n > 0; n-- { // perturbations
+		switch r.Intn(6) {
+		case 0:
+			sp.CPU = kit.Pick(r, []string{fmt.Sprintf("%dm", maxCPU*1000-99), fmt.Sprintf("%d", maxCPU), "7900m", "7901m", "16"})
+		case 1:
+			sel[teamKey] = kit.Pick(r, []string{"x", "y", "x", "y", "nobody"})
+		case 2:
+			sel[corev1.LabelTopologyZone] = kit.Pick(r, zones)
+		case 3:
+			sel[v1.CapacityTypeLabelKey] = capacityTypes[r.Intn(2)]
+		case 4:
+			tolerate = nil
+		case 5:
+			for _, p := range w.pools {
+				if r.Bool() {
+					tolerate = append(tolerate, p.Name)
+				}
+			}
+		}
+	}
 	opts := test.PodOptions{ObjectMeta: metav1.ObjectMeta{Name: sp.Name, UID: types.UID("uid-" + sp.Name)},
 		ResourceRequirements: corev1.ResourceRequirements{Requests: corev1.ResourceList{corev1.ResourceCPU: qty(sp.CPU)}}}
-	if r.Chance(1, 2) {
-		sp.NodeSelector = map[string]string{}
-		for k, v := range genSelector(r) {
-			if !strings.Contains(v, ",") {
-				sp.NodeSelector[k] = v
-			}
-		}
-		opts.NodeSelector = sp.NodeSelector
+	if len(sel) > 0 {
+		sp.NodeSelector, opts.NodeSelector = sel, sel
 	}
-	for _, p := range w.pools {
-		for _, t := range p.Taints {
-			if strings.HasPrefix(t, "dedicated=") && r.Chance(2, 3) {
-				opts.Tolerations = append(opts.Tolerations, corev1.Toleration{Key: "dedicated", Operator: corev1.TolerationOpEqual, Value: p.Name, Effect: corev1.TaintEffectNoSchedule})
-				sp.Tolerations = append(sp.Tolerations, "dedicated="+p.Name)
-			}
-		}
+	for _, name := range lo.Uniq(tolerate) {
+		opts.Tolerations = append(opts.Tolerations, corev1.Toleration{Key: "dedicated", Operator: corev1.TolerationOpEqual, Value: name, Effect: corev1.TaintEffectNoSchedule})
+		sp.Tolerations = append(sp.Tolerations, "dedicated="+name)
 	}
 	pod := test.UnschedulablePod(opts)
 	if prefs {
@@ -307,13 +368,13 @@ func genPod(r *kit.Rand, w *world, idx int, prefs bool) (*corev1.Pod, sPod) {
 		if n := r.Intn(3); n > 0 {
 			aff.RequiredDuringSchedulingIgnoredDuringExecution = &corev1.NodeSelector{}
 			for i := 0; i < n; i++ {
-				m := genSelector(r)
+				m := genSelector(r, w)
 				sp.Required = append(sp.Required, m)
 				aff.RequiredDuringSchedulingIgnoredDuringExecution.NodeSelectorTerms = append(aff.RequiredDuringSchedulingIgnoredDuringExecution.NodeSelectorTerms, nsTerm(m))
 			}
 		}
 		for i, n := 0, r.Intn(3); i < n; i++ {
-			m := genSelector(r)
+			m := genSelector(r, w)
 			wt := int32(r.Range(1, 3) * 10)
 			sp.Preferred = append(sp.Preferred, fmt.Sprintf("%d:%v", wt, m))
 			aff.PreferredDuringSchedulingIgnoredDuringExecution = append(aff.PreferredDuringSchedulingIgnoredDuringExecution, corev1.PreferredSchedulingTerm{Weight: wt, Preference: nsTerm(m)})
